@@ -522,6 +522,7 @@ func runLB(work, prop string) {
 		lbTimeoutScenario(e)
 		cases = append(cases, lbFallbackScenario(e)...)
 		lbCloseStress(e)
+		lbWakeTimeoutRace(e)
 	}
 	e.Res.Rule = "seeded random histories over a Client with an instrumented RoundTripper: Update with overlapping/duplicate/empty target lists, gated detector checks released with scripted health (current and stale generations), calls under the three scheduling policies (Director empty/listed/unlisted), callers that wait and are woken, probe clock backdating, Close; every operation is one model step from the snapshot before to the snapshot after; plus function-level cases for target.Update (EWMA) and minHeap; non-trivial = distinct (policy, operation-shape sequence)"
 	names := writeCases(work, "From Coq Require Import List ZArith. Import ListNotations. From RPC Require Import RunLB. From RPC.LB Require Import Model. Open Scope Z_scope.", "anycase", cases, 200)
